@@ -10,7 +10,7 @@ Oracle: specs/seq/IniStore.tla (store `lines` shaped after ini_line_t + ghost or
   3. direction (ii): long seeded random histories run on the real store (ASan build and a plain -O2 build whose
      realloc may extend in place), logged as ndjson and validated by TLC against Trace_IniStore.
 Python only renders inputs, shuttles JSON and compares JSON values for equality."""
-import json, os, random, threading
+import json, os, random, re, threading
 from rig import common
 
 SRC = ["/verif/harness/ini_drv.c", "src/utils/ini.c", "src/utils/buf_str.c"]
@@ -25,6 +25,28 @@ def fail_once(ctx, key, detail, replay):
     _seen[key] = _seen.get(key, 0) + 1
     if _seen[key] == 1:
         ctx.fail(key, detail, replay)
+
+
+_ASAN_ENV = {"ASAN_OPTIONS": "detect_leaks=0:abort_on_error=0:detect_stack_use_after_return=1:allocator_may_return_null=1:print_legend=0",
+             "UBSAN_OPTIONS": "print_stacktrace=1:halt_on_error=1"}
+def crash_key(exe, case, ans):
+    """(kind, function) of a driver crash.  common.san_key does not recognise reports whose innermost frame is an
+    interceptor (memcpy into a too small block): the single case is run again and the first repository frame taken."""
+    k = ans["crash"]
+    if not k[0].startswith("exit-"):
+        return k[0], (k[1] or "?"), ans["raw"]
+    rc, out = common.sh([exe], stdin=(case + "\n").encode(), timeout=120, env=_ASAN_ENV)
+    m = re.search(r"ERROR: AddressSanitizer: (\S+)", out)
+    if not m:
+        m2 = re.search(r"^(free\(\)|malloc\(\)|munmap_chunk\(\)|double free|corrupted|realloc\(\))[^\n]*", out, re.M)
+        return ("heap-corruption-abort" if m2 else k[0]), "?", out[-2500:]
+    kind = m.group(1)
+    acc = "WRITE" if re.search(r"^WRITE of size", out, re.M) else ("READ" if re.search(r"^READ of size", out, re.M) else "")
+    fn = "?"
+    for fm in re.finditer(r"#\d+ 0x[0-9a-f]+ in (\S+) (/\S+?):(\d+)", out):
+        if fm.group(2).startswith(common.REPO + "/"):
+            fn = fm.group(1); break
+    return kind + ("-" + acc if acc else ""), fn, out[:3500]
 
 
 def hx(arr):
@@ -59,7 +81,7 @@ def spec_part(ctx):
     if not ctx.quick:
         for inv in ("Reach_DictBig", "Reach_DupSOnly", "Reach_DupIOnly", "Reach_BlankTail"):
             cfgp = os.path.join(common.tlc_workspace(), "MC_reach_%s.cfg" % inv)
-            base = open(os.path.join(common.tlc_workspace(), "MC_IniStore_deep.cfg")).read()
+            base = open(os.path.join(common.tlc_workspace(), "MC_IniStore_reach.cfg")).read()
             open(cfgp, "w").write("\n".join(l if not l.startswith("INVARIANTS") else "INVARIANTS " + inv for l in base.splitlines()) + "\n")
             r = common.tlc("MC_IniStore", cfg=os.path.basename(cfgp), workers=2, timeout=600, xss=XSS)
             if r.rc != 12:
@@ -98,8 +120,8 @@ def judge(ctx, ln, ans, label, stats):
     hist = ln["hist"]
     rp = {"model": label, "hist": hist, "driver_case": case_of(stats["Q"], hist)}
     if isinstance(ans, dict):
-        k = ans["crash"]
-        fail_once(ctx, "ini:%s:%s:after-%s" % (k[0], k[1] or "?", last_op(hist)), ans["raw"], rp)
+        kind, fn, raw = crash_key(stats["exe"], rp["driver_case"], ans)
+        fail_once(ctx, "ini:%s:%s:after-%s" % (kind, fn, last_op(hist)), raw, rp)
         return
     try:
         evs = json.loads(ans)
@@ -153,7 +175,7 @@ def beh_run(ctx, exe, cfg, label, simulate=None, depth=None, timeout=900):
             raise common.Infra("behaviour emission lost lines: %d printed vs %d distinct states" % (len(cases), r.distinct))
     else:
         ctx.add(simulated_steps=len(cases))
-    stats = {"Q": Q[0]["Q"], "known_find": 0, "known_gen": 0}
+    stats = {"Q": Q[0]["Q"], "known_find": 0, "known_gen": 0, "exe": exe}
     res = common.batch_run(exe, [case_of(stats["Q"], c["hist"]) for c in cases], timeout=900)
     paths = {}
     for c, a in zip(cases, res):
@@ -173,11 +195,11 @@ def beh_part(ctx, exe):
     if ctx.quick:
         cs = beh_run(ctx, exe, "Beh_IniStore.cfg", "all histories <= 2 ops")
         beh_run(ctx, exe, "Beh_IniStore_text.cfg", "every text <= 4 bytes")
-        beh_run(ctx, exe, "Beh_IniStore_sim.cfg", "random walks", simulate=45, depth=10)
+        beh_run(ctx, exe, "Beh_IniStore_sim.cfg", "random walks", simulate=40, depth=9)
     else:
         cs = beh_run(ctx, exe, "Beh_IniStore_d3.cfg", "all histories <= 3 ops", timeout=1500)
         beh_run(ctx, exe, "Beh_IniStore_text5.cfg", "every text <= 5 bytes", timeout=1500)
-        beh_run(ctx, exe, "Beh_IniStore_sim.cfg", "random walks", simulate=1200, depth=12, timeout=1500)
+        beh_run(ctx, exe, "Beh_IniStore_sim.cfg", "random walks", simulate=800, depth=12, timeout=1500)
     c = cs[min(len(cs) - 1, 700)]
     ctx.add(samples=[{"behaviour": c["hist"], "expected_store": c["store"]}])
 
@@ -268,7 +290,7 @@ def rnd_script(rng, nops, big):
 
 def trace_part(ctx, exes):
     rng = random.Random(ctx.seed * 7919 + 17)
-    nexec, nops = (14, 110) if ctx.quick else (90, 160)
+    nexec, nops = (12, 100) if ctx.quick else (90, 160)
     scripts = []
     for i in range(nexec):
         big = (i % 7 == 3)              # parse-heavy executions cross the 64/128-line reallocation of the line array
@@ -283,8 +305,8 @@ def trace_part(ctx, exes):
             for i, a in enumerate(res):
                 rp = {"build": bname, "script": scripts[i]}
                 if isinstance(a, dict):
-                    k = a["crash"]
-                    fail_once(ctx, "ini:%s:%s:random-history" % (k[0], k[1] or "?"), a["raw"], rp)
+                    kind, fn, raw = crash_key(exe, scripts[i], a)
+                    fail_once(ctx, "ini:%s:%s:random-history" % (kind, fn), raw, rp)
                     continue
                 try:
                     evs = json.loads(a)
